@@ -46,6 +46,7 @@ type Ctx struct {
 	disagree   int
 	validated  int
 	refBatch   int
+	engineErrors int
 	replayOverride func(p *Prog, f gosx.Failure) (ok bool, detail map[string]interface{}, handled bool)
 }
 
@@ -301,6 +302,10 @@ func (c *Ctx) Finish(inconclusiveAll bool) int {
 	if len(c.violations) > 0 {
 		return 1
 	}
+	if c.engineErrors > 0 {
+		fmt.Printf("ENGINE-ERROR property=%s %d paths ended in an engine-internal error (nothing is claimed for them; see evidence path_end_reasons)\n", c.ID, c.engineErrors)
+		return 2
+	}
 	if inconclusiveAll {
 		fmt.Printf("INCONCLUSIVE property=%s nothing could be decided\n", c.ID)
 		return 3
@@ -377,6 +382,7 @@ func topN(m map[string]int, n int) map[string]int {
 func (a *Agg) Into(c *Ctx, prefix string) {
 	c.mu.Lock()
 	c.paths += a.Paths
+	c.engineErrors += a.ByEnd["engine-error"]
 	c.steps += a.Steps
 	c.mu.Unlock()
 	c.Cov(prefix+"explorations", a.Tasks)
